@@ -192,11 +192,13 @@ FRESH_EMPTY = {'std::vec::Vec::<T>::with_capacity', 'std::vec::Vec::<T>::new'}
 
 
 class ElemEngine:
-    def __init__(self, prog, ints=False, guarded=False):
+    def __init__(self, prog, ints=False, guarded=False, guard_locals=False, positions=False):
         self.prog = prog
         self.pdb = prog.pdb
         self.ints = ints          # keep integer arithmetic / integer fields symbolic (formula extraction) instead of the opaque INT
         self.guarded = guarded    # alternatives of several return sites carry the comparisons that select them: ('when', conds, e)
+        self.positions = positions    # items of counting ranges are lo + ('pos',), the position in the sequence, instead of the opaque INT
+        self.guard_locals = guard_locals    # likewise the alternatives of a local assigned in several branches (`let n = if c { a } else { b }`)
         self._memo = {}
         self._stack = []
         self._supp = ()
@@ -403,6 +405,11 @@ class ElemEngine:
                 return frozenset([('sym', 'closure')])
             return top('aggregate ' + str(kind))
         if k in ('range', 'rangeincl'):
+            if self.positions and self.ints:
+                lo = flat(self.ev(env, it[1]))
+                if len(lo) == 1 and INT not in lo and not has_top(lo):
+                    lo0 = next(iter(lo))
+                    return frozenset([('pos',) if lo0 == ('ci', 0) else ('b', 'IAdd', lo0, ('pos',))])
             return frozenset([INT])
         if k == 'item':
             return self.item_value(env, t[2])
@@ -425,6 +432,11 @@ class ElemEngine:
         """abstract value of the items produced by iterator term `it`"""
         k = tag(it)
         if k in ('range', 'rangeincl'):
+            if self.positions and self.ints:
+                lo = flat(self.ev(env, it[1]))
+                if len(lo) == 1 and INT not in lo and not has_top(lo):
+                    lo0 = next(iter(lo))
+                    return frozenset([('pos',) if lo0 == ('ci', 0) else ('b', 'IAdd', lo0, ('pos',))])
             return frozenset([INT])
         if k == 'call':
             p = it[1]
@@ -704,11 +716,12 @@ class ElemEngine:
         """a multi-def local: join of everything assigned to it (loop-carried values give ('top','recursion')
         only if they feed themselves through arithmetic; accumulators are summarised as reductions)"""
         f = env.f
-        vals = [s.value for s in f.stores() if s.target == t]
+        sts = [s for s in f.stores() if s.target == t]
+        vals = [s.value for s in sts]
         if not vals:
             return top('local without defs ' + show(t))
         avs = []
-        for v in vals:
+        for st_, v in zip(sts, vals):
             key = (env.key(), ('localdef', t, v))
             if key in self._stack:
                 continue
@@ -717,6 +730,11 @@ class ElemEngine:
                 av = self.ev(env, v)
             finally:
                 self._stack.pop()
+            if self.guard_locals and len(vals) > 1 and not is_tuple(av):
+                # the comparisons dominating this assignment are necessary for the local to hold this alternative
+                conds = self._guard_exprs(env, st_.bb)
+                if conds:
+                    av = frozenset(e if (isinstance(e, tuple) and e and e[0] == 'top') else ('when', conds, e) for e in flat(av))
             avs.append(av)
         if not avs:
             return top('local defined only through itself ' + show(t))
